@@ -37,6 +37,11 @@ EQUIV_LAYOUTS = [
 ]
 
 
+# values of the ws parameter: the default, and sets with characters that mean something inside a regex
+# character class (ws is a set of characters, not a pattern)
+WS_SETS = [None, " -_", "^ \t", " \t]", "\\ -"]
+
+
 def render_with_starts(tokens, fill, k, l2):
     n = len(fill)
     out = fill[k % n]
@@ -131,6 +136,8 @@ def run_case(case, ctx):
     # parser options that must not matter for layout: the table kind, and priorities on the layout
     # terminals (they never compete on the fillers used here, so every one of them must still be tried)
     kw = {"tables": pgl.TABLES[case.get("table", "LALR")]}
+    ws_set = WS_SETS[case.get("ws", 0) % len(WS_SETS)] if layout == "ws" else None
+    kw_ws = dict(kw, ws=ws_set) if ws_set is not None else kw       # the ws-based parsers only
     if layout == "ws":
         text_g = cfg.to_parglare()
     else:
@@ -146,25 +153,40 @@ def run_case(case, ctx):
     words += [w[:i] + ["#"] + w[i:] for w in list(words) if len(w) <= 2 for i in range(len(w) + 1)]
     parsers = []
     try:
-        parsers.append(("glr", pgl.GLRParser(pgl.Grammar.from_string(text_g), **kw)))
+        parsers.append(("glr", pgl.GLRParser(pgl.Grammar.from_string(text_g), **kw_ws)))
     except Exception as e:
         ctx.fail("glr-construction-raises", grammar=text_g, error=repr(e))
     try:
-        parsers.append(("lr", pgl.Parser(pgl.Grammar.from_string(text_g), **kw)))
+        parsers.append(("lr", pgl.Parser(pgl.Grammar.from_string(text_g), **kw_ws)))
     except (SRConflicts, RRConflicts):
         pass
     # equivalent LAYOUT variant (only meaningful for ws layout)
     eq = []
     if layout == "ws":
         rules, terms = EQUIV_LAYOUTS[case["equiv"] % len(EQUIV_LAYOUTS)]
+        if ws_set is not None:
+            # the LAYOUT rule that matches exactly runs of the characters of this ws (or nothing)
+            rules, terms = "LAYOUT: WSX | EMPTY;", "WSX: /[%s]+/;" % "".join(
+                "\\" + c if c in "\\]^-[/" else {"\t": "\\t", "\n": "\\n"}.get(c, c) for c in ws_set)
         text_eq = cfg.to_parglare(extra_rules=rules, extra_terminals=terms)
+        # every other parse both parsers carry a (stateless, accept-all) dynamic filter that logs its calls:
+        # how layout is skipped must not show in what the filter sees either
+        flog = {"w": [], "l": []}
+        if case.get("equiv", 0) % 2:
+            def mkf(key):
+                def f(context, from_state, to_state, action, production, subresults):
+                    flog[key].append("init" if action is None else "call")
+                    return None if action is None else True
+                return f
+            kw_ws = dict(kw_ws, dynamic_filter=mkf("w"))
+            kw = dict(kw, dynamic_filter=mkf("l"))
         try:
-            eq.append(("glr", pgl.GLRParser(pgl.Grammar.from_string(text_g), build_tree=True, **kw),
+            eq.append(("glr", pgl.GLRParser(pgl.Grammar.from_string(text_g), build_tree=True, **kw_ws),
                        pgl.GLRParser(pgl.Grammar.from_string(text_eq), build_tree=True, **kw)))
         except Exception as e:
             ctx.fail("glr-construction-raises", grammar=text_eq, error=repr(e))
         try:
-            eq.append(("lr", pgl.Parser(pgl.Grammar.from_string(text_g), build_tree=True, **kw),
+            eq.append(("lr", pgl.Parser(pgl.Grammar.from_string(text_g), build_tree=True, **kw_ws),
                        pgl.Parser(pgl.Grammar.from_string(text_eq), build_tree=True, **kw)))
         except (SRConflicts, RRConflicts):
             pass
@@ -191,14 +213,19 @@ def run_case(case, ctx):
             if "eq" + kind in dead:
                 continue
             for text in (t1, t2):
+                del flog["w"][:], flog["l"][:]
                 a = full_outcome(pw, text, kind)
                 b = full_outcome(pl, text, kind)
                 if "timeout" in (a[0], b[0]):
                     dead.add("eq" + kind)
                     break
+                if flog["w"] != flog["l"]:
+                    ctx.fail("dynamic-filter-sees-the-layout-mechanism", parser=kind, text=text, grammar_ws=text_g,
+                             layout_rule=rules + " " + terms, calls_with_ws=flog["w"][:12],
+                             calls_with_LAYOUT=flog["l"][:12])
                 if a != b:
                     ctx.fail("LAYOUT-rule-differs-from-ws", parser=kind, text=text, grammar_ws=text_g,
-                             layout_rule=EQUIV_LAYOUTS[case["equiv"] % len(EQUIV_LAYOUTS)][0],
+                             layout_rule=rules + " " + terms, ws_parameter=ws_set,
                              ws=repr(a)[:400], layout=repr(b)[:400])
                 ctx.label("ws-vs-LAYOUT-compared")
         diff = [i for i in range(len(ne1)) if (t1 != t2) and
@@ -214,10 +241,14 @@ def _case(gstrat, lex):
         g = draw(gstrat)
         layout = draw(st.sampled_from(["ws", "ws", "comments"]))
         pool = WS_FILL if layout == "ws" else CM_FILL
+        ws = draw(st.sampled_from([0, 0, 0, 1, 2, 3, 4])) if layout == "ws" else 0
+        if ws:
+            chars = WS_SETS[ws]
+            pool = [""] + list(chars) + [a + b for a in chars for b in chars][:6]
         f1 = draw(st.lists(st.sampled_from(pool), min_size=3, max_size=6))
         f2 = draw(st.lists(st.sampled_from(pool), min_size=3, max_size=6))
         nterm = len(g["terms"])
-        return {"g": g, "lex": lex, "layout": layout, "fill1": f1, "fill2": f2,
+        return {"g": g, "lex": lex, "layout": layout, "fill1": f1, "fill2": f2, "ws": ws,
                 "table": draw(st.sampled_from(["LALR", "LALR", "SLR"])),
                 "layout_prios": draw(st.lists(st.sampled_from([0, 0, 5, 15]), min_size=3, max_size=3)),
                 "equiv": draw(st.integers(0, 7)), "max_len": 4 if nterm <= 2 else 3}
